@@ -119,7 +119,12 @@ def fns(sched, nan_kind, slow):
                 raise TypeError("update function called with extra arguments %r" % (extra,))
             if slow:
                 sched.point()
-            return g(x)
+            try:
+                return g(x)
+            finally:
+                sched.log(k="f-end", op="-", f="-", a=NIL, b=NIL, res=NIL)
+                if slow:
+                    sched.point()
         return f
     return {
         "inc": wrap(lambda x: x + 1 if isinstance(x, (int, float)) and not isinstance(x, bool) else x),
@@ -158,12 +163,24 @@ def make_scenario(sc):
     from basilisp.lang import atom as A
 
     def make(s):
+        vf = VALIDATORS[sc["validator"]]
+        if vf is not None and sc.get("logv"):
+            def vf(v, _vf=vf):
+                try:
+                    return _vf(v)
+                finally:
+                    if s.cur is not None:
+                        s.log(k="v-end", op="-", f="-", a=NIL, b=NIL, res=NIL)
+                        s.point()
         with dsched.patched():
-            a = A.Atom(sc["init"], validator=VALIDATORS[sc["validator"]])
+            a = A.Atom(sc["init"], validator=vf)
+        sc["_atom"] = a
         F = fns(s, sc["nan"], sc["slow"])
         if sc["watch"]:
             def w(k, ref, old, new):
                 s.log(k="watch", op="-", f="-", a=absval(old), b=absval(new), res=NIL)
+                if sc.get("logv"):
+                    s.point()
             c["add-watch"](a, "w", w)
 
         def thread(prog):
@@ -171,6 +188,8 @@ def make_scenario(sc):
                 for name in prog:
                     op, f, x, y = OPS[name]
                     s.log(k="call", op=op, f=f, a=x, b=y, res=NIL)
+                    if sc.get("logv"):
+                        s.point()
                     try:
                         if op == "swap":
                             r = c["swap!"](a, F[f])
@@ -190,6 +209,8 @@ def make_scenario(sc):
                     except Exception as e:  # noqa
                         res = absexc(e)
                     s.log(k="ret", op="-", f="-", a=NIL, b=NIL, res=res)
+                    if sc.get("logv"):
+                        s.point()
             return run
         for i, prog in enumerate(sc["progs"]):
             s.spawn(i + 1, thread(prog))
@@ -232,6 +253,7 @@ def explore_scenario(arg):
     n, complete = dsched.explore(make_scenario(sc), TARGETS, max_preempt=max_pre, limit=limit, max_steps=800,
                                  on_result=on_result, seed=seed)
     stats["complete"] = complete
+    sc.pop("_atom", None)
     return sc, list(out.values()), fails, stats
 
 
@@ -312,6 +334,128 @@ def design_checks(chk):
             chk.machinery("anti-vacuity: mutant model %s is not rejected by the design check" % cfg)
 
 
+# ---- spec -> code: TLC behaviours of AtomImpl replayed step by step ------------------------------------------
+OPNAME = {}
+
+
+def _opname(call):
+    for n, (op, f, a, b) in OPS.items():
+        if (op, f, a, b) == (call["op"], call["f"], call["a"], call["b"]):
+            return n
+    raise KeyError(call)
+
+
+def plan_of(beh, has_validator):
+    """abstract steps -> observable boundaries (thread, event kind, ordinal) + the step index they end"""
+    cnt = {}
+    plan, idx = [], []
+    cur_op = {}
+    nxt = {t + 1: 0 for t in range(len(beh["progs"]))}
+    for i, st in enumerate(beh["steps"]):
+        t, at = st["t"], st["at"]
+        if at == "idle":
+            cur_op[t] = beh["progs"][t - 1][nxt[t]]["op"]
+            nxt[t] += 1
+            kind = "call"
+        elif at == "read":
+            kind = "lock:rel"
+            cnt[(t, "lock:acq")] = cnt.get((t, "lock:acq"), 0) + 1     # deref takes and releases the lock
+        elif at == "compute":
+            kind = "f-end" if cur_op[t] in ("swap", "swapvals") else None
+        elif at == "validate":
+            kind = "v-end" if has_validator else None
+        elif at == "acquire":
+            kind = "lock:acq"
+        elif at in ("relok", "relfail"):
+            kind = "lock:rel"
+        elif at == "notify":
+            kind = "watch"
+        elif at == "ret":
+            kind = "ret"
+        else:
+            kind = None          # compare, set: inside the critical section, not observable
+        if kind is None:
+            continue
+        cnt[(t, kind)] = cnt.get((t, kind), 0) + 1
+        plan.append((t, kind, cnt[(t, kind)]))
+        idx.append(i)
+    return plan, idx
+
+
+def replay_behaviour(arg):
+    """-> list of (clause, expected, observed) mismatches for one TLC behaviour"""
+    beh, validator, nan_kind = arg
+    core()
+    sc = {"progs": [[_opname(c) for c in p] for p in beh["progs"]], "validator": validator, "watch": True,
+          "nan": nan_kind, "slow": False, "init": 0, "logv": True}
+    plan, idx = plan_of(beh, validator != "none")
+    bad = []
+
+    def on_boundary(pi):
+        st = beh["steps"][idx[pi]]
+        # compared where the real state is determined: when a thread leaves its critical section (steps that
+        # are not observable - compare, set - of OTHER threads cannot be pending then: they need the lock)
+        if plan[pi][1] == "lock:rel":
+            got = absval(sc["_atom"]._state)
+            if got != st["val"]:
+                bad.append(("AtomImpl!SameValue(step %d %s->%s of thread %d)" % (idx[pi], st["at"], st["to"], st["t"]),
+                            st["val"], got))
+    s = dsched.PlanSched(TARGETS, plan, max_steps=3000, on_boundary=on_boundary)
+    finish = make_scenario(sc)(s)
+    s.run()
+    final = finish()
+    sc.pop("_atom", None)
+    if s.failed:
+        bad.append(("AtomImpl_Gen!Replayable", "the interleaving is executable", s.failed))
+        return beh, sc, bad
+    rets = {}
+    for e in s.events:
+        if e["k"] == "ret":
+            rets.setdefault(e["t"], []).append(e["res"])
+    exp = {}
+    for st in beh["steps"]:
+        if st["to"] == "ret":
+            exp.setdefault(st["t"], []).append(st["res"])
+    for t in exp:
+        if rets.get(t) != exp[t]:
+            bad.append(("AtomImpl!ResultsTruthful(thread %d)" % t, exp[t], rets.get(t)))
+    if final != beh["final"]:
+        bad.append(("AtomImpl!SameValue(final)", beh["final"], final))
+    return beh, sc, bad
+
+
+def spec_to_code(chk):
+    n = 300 if chk.tier == "quick" else 4000
+    jobs = []
+    for cfg, validator in [("AtomImpl_Gen.cfg", "lt3"), ("AtomImpl_Gennv.cfg", "none")] + (
+            [("AtomImpl_Gen3.cfg", "lt3")] if chk.tier == "thorough" else []):
+        r = tlc.run("AtomImpl_Gen", cfg, simulate=n, depth=120, seed=chk.seed + 1, workers=4, timeout=1800)
+        chk.add_tlc(cfg + " (simulate)", r)
+        behs = r.tagged("BEH")
+        seen = set()
+        for b in behs:
+            key = json.dumps(b, sort_keys=True)
+            if key in seen:
+                continue
+            seen.add(key)
+            uses_nan = "nan" in key
+            for nk in (("float", "vec", "obj") if uses_nan else ("float",)):
+                jobs.append((b, validator, nk))
+    ctx = mp.get_context("fork")
+    with ctx.Pool(16) as pool:
+        res = pool.map(replay_behaviour, jobs, chunksize=8)
+    for beh, sc, bad in res:
+        chk.count(1, traces=1)
+        if len({st["t"] for st in beh["steps"][:6]}) > 1:
+            chk.nontriv(n=1)
+        for clause, exp, got in bad[:1]:
+            chk.discrepancy(clause, {"behaviour": beh, "validator": sc["validator"], "nan": sc["nan"]}, exp, got,
+                            module="AtomImpl_Gen", direction="spec->code")
+    chk.extra["spec_behaviours_replayed"] = len(jobs)
+    if res:
+        chk.sample({"behaviour_steps": [(st["t"], st["at"]) for st in res[0][0]["steps"]][:40]})
+
+
 def run(chk):
     rnd = random.Random(chk.seed)
     core()
@@ -320,6 +464,7 @@ def run(chk):
                 "(call/ret/watch sequences) are validated by TLC against Atom.tla; non-trivial = trace of an "
                 "execution with at least one pre-emption in which two calls overlap")
     design_checks(chk)
+    spec_to_code(chk)
     scs = scenarios(chk.tier, rnd)
     max_pre = 2 if chk.tier == "quick" else 3
     limit = 700 if chk.tier == "quick" else 20000
@@ -376,6 +521,14 @@ def _overlaps(tr):
 def replay(chk, body):
     core()
     case = body["case"]
+    if "behaviour" in case:
+        beh, sc, bad = replay_behaviour((case["behaviour"], case["validator"], case["nan"]))
+        chk.count(1)
+        print("steps:", [(st["t"], st["at"]) for st in beh["steps"]])
+        for clause, exp, got in bad:
+            print("MISMATCH", clause, "expected", exp, "observed", got)
+            chk.discrepancy(clause, case, exp, got, module="AtomImpl_Gen", direction="replay")
+        return
     sc, choices = case["scenario"], case["schedule"]
     s, final = dsched.run_one(make_scenario(sc), TARGETS, choices=choices, max_steps=800)
     chk.count(1)
